@@ -81,6 +81,9 @@ def _cases(draw, tier):
     pre = draw(st.sampled_from([None, None, None, "normsq", "sw", "proj", "inv", "polarity", "outerexp", "normsq"]))
     if pre in ("sw", "proj", "inv", "outerexp") and (len(a["keys"]) > 4 or (b and len(b["keys"]) > 4)):
         pre = "normsq"
+    if pre and b is not None and a["keys"] and draw(st.booleans()):
+        # same key pattern on both sides: the operator under test then meets exactly the patterns the composite generated internally
+        b = {"grades": list(a["grades"]), "keys": list(a["keys"]), "vals": [draw(S.fracs(zero_prob=0.05)) for _ in a["keys"]]}
     return {"cfg": cfg, "op": op, "a": a, "b": b, "opts": opts, "vmode": vmode,
             "build": draw(st.sampled_from(["ctor", "ctor", "blades"])), "pre": pre}
 
